@@ -349,7 +349,7 @@ func (s *Sim) DumpGoroutines() string {
 	dump := string(after[len(before):])
 	var out []string
 	for _, blk := range strings.Split(dump, "\n\n") {
-		if !strings.HasPrefix(blk, "goroutine ") || !strings.Contains(blk, "/core/") {
+		if !strings.HasPrefix(blk, "goroutine ") || !(strings.Contains(blk, "/core/") || strings.Contains(blk, "mesos-go")) {
 			continue
 		}
 		lines := strings.Split(blk, "\n")
